@@ -44,10 +44,14 @@ class PosLine(NamedTuple):
                 cache.append(pl)  # noqa: PERF401
             i += len(line)
 
-        n += 1
+        # sentinel for pos == size: after a final newline it is the start of
+        # a new empty line, otherwise it still belongs to the last line
         if lines[-1][-1] in {'\r', '\n'}:
             n += 1
-        cache.append(PosLine(i, n, 0))
+            cache.append(PosLine(i, n, 0))
+        else:
+            cache.append(cache[-1])
+        n += 1  # the line count
 
         # the range depends on line[-1] ending in a newline
         endrange = range(len(lines), 2 + len(lines))
